@@ -8,7 +8,8 @@
       (`and`, `true`, `null`, `print`, `sp`, … would lex as the keyword): `identOk`, `notKeyword`;
     - a data-ref key `$k` begins with a letter (any Unicode letter) or `_`: `varOk`;
     - an access key `.k` / `?.k` and a later segment `.seg` of a global do not begin with an ASCII digit
-      (which would make it an index token): `keyOk`;
+      (which would make it an index token) — the EMPTY key included (`$a.`, `x.` are accepted by the
+      parser): `keyOk`;
   * index accesses are not negative (`.-3` is not a token);
   * a string literal is spelled `q body q` with `q` one of `'` `"`, no unescaped `q` and no lone
     trailing backslash in the body (`strOk`; map keys are printed by `quoteString`, always fine);
@@ -40,9 +41,10 @@ def varOk : Bytes → Bool
       | some (r, _) => letterR r
       | none => false
 
-/-- the key of `.key` / `?.key`: letters / digits / `_` not beginning with an ASCII digit -/
+/-- the key of `.key` / `?.key`: letters / digits / `_` not beginning with an ASCII digit — or EMPTY
+    (a dangling dot: `parse.Expr("$a.")` returns the access with the empty key, and prints `$a.`) -/
 def keyOk : Bytes → Bool
-  | [] => false
+  | [] => true
   | c :: k => !isDig c && alnumBytes (c :: k)
 
 /-- not a key of `parse.builtinIdents` -/
@@ -141,12 +143,12 @@ theorem varOk_parts {k : Bytes} (h : varOk k = true) :
     exact h2
 
 theorem keyOk_parts {k : Bytes} (h : keyOk k = true) :
-    ∃ c r, k = c :: r ∧ isDig c = false ∧ alnumBytes (c :: r) = true := by
+    k = [] ∨ ∃ c r, k = c :: r ∧ isDig c = false ∧ alnumBytes (c :: r) = true := by
   cases k with
-  | nil => simp [keyOk] at h
+  | nil => exact Or.inl rfl
   | cons c r =>
     simp only [keyOk, Bool.and_eq_true, Bool.not_eq_true'] at h
-    exact ⟨c, r, rfl, h.1, h.2⟩
+    exact Or.inr ⟨c, r, rfl, h.1, h.2⟩
 
 theorem idStart_idChar {c : UInt8} (h : isIdStart c = true) : isIdChar c = true := by simp [isIdChar, h]
 
